@@ -88,11 +88,17 @@ ToHalf(c) ==
           /\ UNCHANGED <<state, trials, successes, stuck>>
   /\ UNCHANGED <<failures, hasFail, failAge, openAge, plan, res>>
 
+\* Execute's admission section: in half-open the budget is checked and the trial counted in ONE critical section
+\* (a caller that passed Read while the budget was free, or lost the open -> half-open race, is turned away here)
 Count(c) ==
   /\ pc[c] = "count" /\ ~stuck
-  /\ trials' = IF state = "half" THEN trials + 1 ELSE trials
-  /\ pc' = [pc EXCEPT ![c] = "run"]
-  /\ UNCHANGED <<state, failures, successes, hasFail, failAge, openAge, plan, res, stuck>>
+  /\ IF state = "half" /\ trials >= MR
+     THEN /\ pc' = [pc EXCEPT ![c] = "idle"] /\ res' = [res EXCEPT ![c] = "many"] /\ UNCHANGED trials
+     ELSE IF state = "open" /\ openAge <= TO      \* tripped (again) since this caller looked: turned away like any other
+     THEN /\ pc' = [pc EXCEPT ![c] = "idle"] /\ res' = [res EXCEPT ![c] = "open"] /\ UNCHANGED trials
+     ELSE /\ trials' = IF state = "half" THEN trials + 1 ELSE trials
+          /\ pc' = [pc EXCEPT ![c] = "run"] /\ UNCHANGED res
+  /\ UNCHANGED <<state, failures, successes, hasFail, failAge, openAge, plan, stuck>>
 
 Run(c) ==
   /\ pc[c] = "run"
